@@ -401,6 +401,24 @@ static void run_case(int ki, int alg, int base, int pinroute)
 		}
 		t2 = vh_ref_token(kb, alg, hdr, payload);	/* other key, same type and size */
 		if (t2) { s2 = strrchr(t2, '.') + 1; t = join3(h, p, s2); try_token(M_XPL_KEY, 0, t); free(t); free(t2); }
+		if (k->kind == VH_K_OCT) {
+			/* related oct keys: a prefix of the key (block sizes of the hashes), the key without / with one more octet, last octet flipped */
+			static const int CUT[] = { 16, 32, 48, 64, 128, 0, -1, -2, -3 };
+			for (int v = 0; v < 9; v++) {
+				vh_key_t rk = *k;
+				size_t nl = CUT[v] > 0 ? (size_t)CUT[v] : CUT[v] == 0 ? k->octlen - 1 : k->octlen + (CUT[v] == -1 ? 1 : 0);
+				if (CUT[v] > 0 && (size_t)CUT[v] >= k->octlen) continue;
+				if (!nl) continue;
+				rk.oct = calloc(1, nl + 1);
+				memcpy(rk.oct, k->oct, nl < k->octlen ? nl : k->octlen);
+				rk.octlen = nl;
+				if (CUT[v] == -2) rk.oct[nl - 1] ^= 1;
+				if (CUT[v] == -3) rk.oct[nl - 1] ^= 0x80;
+				t2 = vh_ref_token(&rk, alg, hdr, payload);
+				if (t2) { s2 = strrchr(t2, '.') + 1; t = join3(h, p, s2); try_token(M_XPL_KEY, 1 + v, t); free(t); free(t2); }
+				free(rk.oct);
+			}
+		}
 		for (int o = 0; o < nkeys; o++) {		/* other key types */
 			if (KA[o].kind == k->kind && !strcmp(KA[o].crv, k->crv)) continue;
 			for (int a2 = 1; a2 < VH_NALG; a2++) {
